@@ -14,7 +14,7 @@ import (
 func init() {
 	register(&Spec{
 		ID: "C13",
-		Explanation: "Decides: R1 ordered scan — Group.ServeHTTP ranges ascending over the router list, the accepting router's serveContext runs and the function returns (no later router is tried), Add appends at the end; R2 after a rejection every path to the next matcher / to the not-found call resets the context and restores the request path from the value saved before that matcher ran; R3 the built-in version matchers write to the request or the context only on paths that return true; R4 the not-found call uses the group's (wrapped) not-found handler, Add refuses duplicate names before appending; R5 Add stores the given matcher into the router on every returning path, Use wraps the group's not-found handler on every path; R6 (= C07.R3d/e) the pooled context is released once and not used afterwards. " +
+		Explanation: "Decides: R1 ordered scan — Group.ServeHTTP ranges ascending over the router list, the accepting router's serveContext runs and the function returns (no later router is tried), Add appends at the end; R2 after a rejection every path to the next matcher / to the not-found call resets the context and restores the request path from the value saved before that matcher ran; R3 the built-in version matchers write to the request or the context only on paths that return true; R4 the not-found call uses the group's (wrapped) not-found handler, Add refuses duplicate names before appending; R5 Add stores the given matcher into the router on every returning path, Use wraps the group's not-found handler on every path; R6 (= C07.R3d/e) the pooled context is released once and not used afterwards; R10 AndMatcher / OrMatcher are evaluated symbolically: all / any members, each asked with the request and the context of the call, and the *Func variants forward to the combinator of the same name. " +
 			"Not decided: semantics of user-supplied matchers.",
 		Assumptions: commonAssumptions,
 		Run: func(c *Ctx) {
@@ -25,7 +25,9 @@ func init() {
 			ruleGroupStateOnEveryPath(c, "R5")
 			rulePoolReleaseOnce(c, "R6")
 			ruleRouterNameSetFirst(c, "R7")
+			ruleGroupOptionOrder(c, "R9")
 			rulePortCutAtLastColon(c, "R8")
+			ruleCombinators(c, "R10")
 		},
 	})
 	register(&Spec{
@@ -808,8 +810,99 @@ func ruleGroupStateOnEveryPath(c *Ctx, rule string) {
 		_, _, val, _ := fieldStoreAny(in)
 		t := c.O.Of(val).String()
 		good := strings.Contains(t, "param:matcher") || strings.Contains(t, "param:m")
+		if !good {
+			// the default, stored on the branch on which the argument is nil
+			good = an.DominatedByEdge(in, func(b *ssa.BasicBlock, succ int) bool {
+				cond, onTrue := an.EdgeCond(b, succ)
+				if cond == nil {
+					return false
+				}
+				x, k, eq, ok := an.CondAtom(cond)
+				if !ok || k.Value != nil || eq != onTrue {
+					return false
+				}
+				par, isPar := x.(*ssa.Parameter)
+				return isPar && par.Parent() == add && types.IsInterface(par.Type())
+			})
+		}
 		c.R.Add(rule, c.fk(add), "stores:r.matcher/value-from-argument", c.pos(in), good, ifelse(good, "the stored matcher is the argument (or the default chosen for a nil argument)", "the stored matcher is "+t+", not the argument of Add"))
 	})
+	// the default chosen for a nil argument accepts every request: a function value that does nothing but return true
+	nDefault := 0
+	an.AllInstrs(add, func(in ssa.Instruction) {
+		if !storesMatcher(in) {
+			return
+		}
+		_, _, val, _ := fieldStoreAny(in)
+		var leaves func(v ssa.Value, depth int) []ssa.Value
+		leaves = func(v ssa.Value, depth int) []ssa.Value {
+			if phi, ok := v.(*ssa.Phi); ok && depth < 4 {
+				var out []ssa.Value
+				for _, e := range phi.Edges {
+					out = append(out, leaves(e, depth+1)...)
+				}
+				return out
+			}
+			return []ssa.Value{v}
+		}
+		for _, lf := range leaves(val, 0) {
+			if _, isPar := lf.(*ssa.Parameter); isPar {
+				continue
+			}
+			nDefault++
+			v := lf
+			for {
+				switch x := v.(type) {
+				case *ssa.MakeInterface:
+					v = x.X
+					continue
+				case *ssa.ChangeType:
+					v = x.X
+					continue
+				}
+				break
+			}
+			fn, isFn := v.(*ssa.Function)
+			good := isFn && len(fn.Blocks) > 0
+			if good {
+				for _, r := range an.Returns(fn) {
+					k, isC := r.Results[0].(*ssa.Const)
+					if len(r.Results) != 1 || !isC || k.Value == nil || k.Value.ExactString() != "true" {
+						good = false
+					}
+				}
+				an.AllInstrs(fn, func(x ssa.Instruction) {
+					switch x.(type) {
+					case *ssa.Return, *ssa.DebugRef:
+					default:
+						good = false
+					}
+				})
+			}
+			c.R.Add(rule, c.fk(add), "stores:r.matcher/default-accepts-everything", c.pos(in), good, ifelse(good, "a nil matcher is replaced by a function that only returns true", "the matcher installed for a nil argument is "+c.O.Of(lf).String()+", not a function that accepts every request unconditionally"))
+		}
+	})
+	if nDefault == 0 {
+		// no default installed: then every use of a router's matcher tests it for nil first
+		for _, f := range c.libFuncs() {
+			an.AllInstrs(f, func(in ssa.Instruction) {
+				call := an.CallOf(in)
+				if call == nil || !call.IsInvoke() || call.Method.Name() != "Match" || !strings.HasSuffix(an.AP(call.Value), ".matcher") {
+					return
+				}
+				recvAP := an.AP(call.Value)
+				guarded := an.DominatedByEdge(in, func(b *ssa.BasicBlock, succ int) bool {
+					cond, onTrue := an.EdgeCond(b, succ)
+					if cond == nil {
+						return false
+					}
+					x, k, eq, ok := an.CondAtom(cond)
+					return ok && k.Value == nil && an.AP(x) == recvAP && eq != onTrue
+				})
+				c.R.Add(rule, c.fk(f), "invoke:"+recvAP+".Match/nil-means-accept", c.pos(in), guarded, ifelse(guarded, "Group.Add installs no default, the matcher is tested for nil before it is called", "Group.Add installs no default for a nil matcher and this call does not test for nil: dispatch panics for a router added without a matcher"))
+			})
+		}
+	}
 	use := c.P.MustFunc("mux.(*Group).Use")
 	var mParam *ssa.Parameter
 	for _, p := range use.Params {
